@@ -477,9 +477,40 @@ func genHostileFont(rng *rand.Rand) ([]byte, string) {
 		if rng.IntN(4) > 0 {
 			b = append(b, 139, 139+50, 13) // 0 50 hsbw
 		}
-		n := rng.IntN(40)
-		for i := 0; i < n; i++ {
-			switch rng.IntN(12) {
+		var elem func()
+		elem = func() {
+			switch rng.IntN(13) {
+			case 12:
+				// a motif repeated many times: state that a command accumulates
+				// (flex points, hint lists, the PostScript stack, the path) grows
+				// with every round although each command is well-formed by itself
+				start := len(b)
+				switch rng.IntN(6) {
+				case 0:
+					b = append(b, 139, 139+2, 12, 16) // 0 2 callothersubr (flex: add point)
+				case 1:
+					num(&b, int64(rng.IntN(5)))
+					num(&b, int64(rng.IntN(5)))
+					b = append(b, 21)                 // rmoveto
+					b = append(b, 139, 139+2, 12, 16) // 0 2 callothersubr
+				case 2:
+					b = append(b, 139, 139+1, 12, 16) // 0 1 callothersubr (flex start)
+				case 3:
+					num(&b, int64(rng.IntN(300)))
+					b = append(b, 139+1, 139+3, 12, 16) // n 1 3 callothersubr (hint replacement), result left on the PostScript stack
+				case 4:
+					num(&b, int64(rng.IntN(300)))
+					num(&b, int64(rng.IntN(40)))
+					b = append(b, byte(1+2*rng.IntN(2))) // hstem / vstem
+				default:
+					for j := 1 + rng.IntN(3); j > 0; j-- {
+						elem()
+					}
+				}
+				motif := append([]byte(nil), b[start:]...)
+				for k := []int{2, 6, 7, 8, 9, 16, 25, 50, 120}[rng.IntN(9)]; k > 1 && len(b) < 4000; k-- {
+					b = append(b, motif...)
+				}
 			case 0, 1, 2, 3:
 				num(&b, []int64{0, 1, -1, 3, 4, 107, -107, 108, 1000, 70000, math.MaxInt32, math.MinInt32, 255, 256, int64(nsub), int64(nsub - 1), int64(rng.IntN(40)) - 5}[rng.IntN(17)])
 			case 4:
@@ -510,6 +541,10 @@ func genHostileFont(rng *rand.Rand) ([]byte, string) {
 			default:
 				b = append(b, 12, 12) // div (possibly by zero)
 			}
+		}
+		n := rng.IntN(40)
+		for i := 0; i < n; i++ {
+			elem()
 		}
 		switch rng.IntN(4) {
 		case 0:
